@@ -245,6 +245,10 @@ func (e *Engine) callModSet(ms map[string]bool, c *ssa.CallCommon, locals map[*s
 		for k := range e.ModSet(callee) {
 			ms[k] = true
 		}
+		if e.fnInModule(callee) {
+			// function values passed to a module callee may be called by it (see the Parameter case below)
+			e.funcArgEffects(ms, c)
+		}
 		if !e.fnInModule(callee) {
 			// closures passed to external code may be run by it
 			for _, a := range c.Args {
@@ -308,7 +312,73 @@ func (e *Engine) callModSet(ms map[string]bool, c *ssa.CallCommon, locals map[*s
 	if os.Getenv("GOVC_DEBUG_MODSET") != "" {
 		fmt.Fprintf(os.Stderr, "modset *: dynamic call %s in %s\n", c.Value, c.Value.Parent())
 	}
+	// mirror the executor (doCallWith): contracts on function-valued fields, process exit, context cancel functions
+	name := (*Frame)(nil).callName(c, nil)
+	if fc := e.contractFor(name); fc != nil && fc.Has("pure") {
+		return
+	}
+	if strings.HasSuffix(name, ".Exit") || isContextCancel(c.Value) {
+		return
+	}
+	// a function-typed parameter: its effects are accounted for where the function value is passed (funcArgEffects)
+	if _, ok := c.Value.(*ssa.Parameter); ok {
+		return
+	}
+	if os.Getenv("GOVC_DUMP_MODSET") != "" {
+		fmt.Fprintf(os.Stderr, "modset *: dynamic call %s at %s\n", c.Value.String(), e.Fset.Position(c.Pos()))
+	}
 	ms["*"] = true
+}
+
+// funcArgEffects adds the effects of the function-typed arguments of a call to a module function: the callee may
+// call them. Closures and named functions contribute their mod-set, nil nothing, a parameter of the enclosing
+// function is accounted for at that function's own call sites; anything else is unknown code.
+func (e *Engine) funcArgEffects(ms map[string]bool, c *ssa.CallCommon) {
+	for _, a := range c.Args {
+		if _, ok := a.Type().Underlying().(*types.Signature); !ok {
+			continue
+		}
+		switch v := a.(type) {
+		case *ssa.MakeClosure:
+			for k := range e.ModSet(v.Fn.(*ssa.Function)) {
+				ms[k] = true
+			}
+		case *ssa.Function:
+			for k := range e.ModSet(v) {
+				ms[k] = true
+			}
+		case *ssa.Const, *ssa.Parameter:
+		default:
+			ms["*"] = true
+		}
+	}
+}
+
+// isContextCancel: the value is the cancel function returned by context.WithCancel/WithTimeout/WithDeadline(+Cause):
+// calling it touches only the context package's own state.
+func isContextCancel(v ssa.Value) bool {
+	ex, ok := v.(*ssa.Extract)
+	if !ok {
+		return false
+	}
+	call, ok := ex.Tuple.(*ssa.Call)
+	if !ok {
+		return false
+	}
+	cal := call.Call.StaticCallee()
+	return cal != nil && cal.Pkg != nil && cal.Pkg.Pkg.Path() == "context" && strings.HasPrefix(cal.Name(), "With")
+}
+
+// havocFuncArgs: executor side of funcArgEffects, for calls that are not inlined.
+func (fr *Frame) havocFuncArgs(c *ssa.CallCommon, st *State) {
+	ms := map[string]bool{}
+	fr.vc.E.funcArgEffects(ms, c)
+	for _, a := range c.Args {
+		if mc, ok := a.(*ssa.MakeClosure); ok {
+			fr.havocCaptured(&ssa.CallCommon{Value: mc}, st)
+		}
+	}
+	fr.vc.havocClasses(st, ms)
 }
 
 // implementers lists module methods that implement the interface method (class-hierarchy analysis).
@@ -406,6 +476,8 @@ func (fr *Frame) localAllocSet() map[*ssa.Alloc]bool {
 }
 
 func (fr *Frame) enterLoop(li *loopInfo, b *ssa.BasicBlock, ins []edge, cur *State, pc T) *State {
+	fr.curLoop = b
+	defer func() { fr.curLoop = nil }()
 	vc := fr.vc
 	key := FuncKey(fr.fn)
 	// 1. phi values on entry
@@ -540,6 +612,8 @@ func (fr *Frame) havocCaptured(c *ssa.CallCommon, st *State) {
 }
 
 func (fr *Frame) backEdge(from, to *ssa.BasicBlock, cond T, st *State) {
+	fr.curLoop = to
+	defer func() { fr.curLoop = nil }()
 	vc := fr.vc
 	li := fr.loops[to]
 	if li == nil {
